@@ -474,6 +474,8 @@ def replay_c09(prop, witness):
 PROPS['C09'] = dict(
     run=run_c09, replay=replay_c09,
     mc=[dict(module='CacheConc', cfg=('CacheConc_locked2.cfg', 'CacheConc_locked3.cfg'), workers=8),
+        dict(module='CacheConc', cfg='CacheConc_clear2.cfg', workers=4),
+        dict(module='CacheConc', cfg='CacheConc_noclear.cfg', expect_violation=True, workers=2),
         dict(module='CacheConc', cfg='CacheConc_nosize.cfg', expect_violation=True, workers=2),
         dict(module='CacheConc', cfg='CacheConc_nolen.cfg', expect_violation=True, workers=2),
         dict(module='CacheConc', cfg='CacheConc_noget.cfg', expect_violation=True, workers=2)],
@@ -481,7 +483,7 @@ PROPS['C09'] = dict(
                  'the "no data race" clause is observed by the Go race detector during the recorded runs (TLC does not see memory accesses)',
                  'workloads hold at most 4 entries, so known finding F2 (needs >= 7 live entries) cannot occur and the sequential oracle is the plain LRU',
                  'invocation/response order from one shared atomic counter read immediately before/after each call',
-                 'CacheConc.tla (design level): with every method under the mutex and Put split at the grain of cache.go, every call is linearizable; variants with Size, Len or Get outside the mutex are refuted by TLC'])
+                 'CacheConc.tla (design level): with every method under the mutex and Put split at the grain of cache.go, every call is linearizable; variants with Size, Len, Get or Clear outside the mutex are refuted by TLC'])
 
 
 # --------------------------------------------------------------------------
